@@ -10,6 +10,7 @@ mod searchprops;
 mod c20;
 mod c16;
 mod c17;
+mod c19;
 #[allow(dead_code)]
 mod jsonproto;
 mod c15;
@@ -82,6 +83,7 @@ fn main() {
         "C08" => c08::run(&mut ctx),
         "C14" => c14::run(&mut ctx),
         "C17" => c17::run(&mut ctx),
+        "C19" => c19::run(&mut ctx),
         _ => {
             eprintln!("unknown property {}", prop);
             std::process::exit(2);
